@@ -81,7 +81,11 @@ func genBytes(rng *rand.Rand, maxLen int) []byte {
 		case 12:
 			// any byte at all (control characters included: a byte test written with bit tricks goes wrong on values no
 			// hand-picked alphabet contains)
-			b = append(b, byte(rng.Intn(256)))
+			if rng.Intn(2) == 0 {
+				b = append(b, byte(rng.Intn(0x20)))
+			} else {
+				b = append(b, byte(rng.Intn(256)))
+			}
 		case 11:
 			// the edges of the three word-character ranges and their outer neighbours
 			b = append(b, "azAZ09`{@[/:"[rng.Intn(12)])
@@ -109,7 +113,7 @@ func c09Gen(rng *rand.Rand, tier string, i int) *Sexp {
 	ops := LA("ops")
 	runes := []rune{'a', 'b', '\n', ' ', 'é', '€', '😀', utf8.RuneError, '_', 0x80, 0x7f}
 	strs := []string{"a", "ab", "b", "aba", "é", "a\n", " ", "_a"}
-	words := []string{"a", "ab", "b", "aba", "a_", "ba"}
+	words := []string{"a", "ab", "b", "aba", "a_", "ba", "a", "b"}
 	modes := []string{"none", "spaces", "nl", "force"}
 	for cur := 0; cur <= len(norm); cur++ {
 		pos := off + cur
